@@ -98,8 +98,8 @@ class Ctx:
         """make the given .vo targets (relative to coq/).  Returns (ok, log)."""
         with open(os.path.join(COQ, ".lock"), "w") as lk:
             fcntl.flock(lk, fcntl.LOCK_EX)
-            if not os.path.exists(os.path.join(COQ, "Makefile")) or \
-               os.path.getmtime(os.path.join(COQ, "Makefile")) < os.path.getmtime(os.path.join(COQ, "_CoqProject")):
+            changed = write_coq_project()
+            if changed or not os.path.exists(os.path.join(COQ, "Makefile")):
                 rc, out = sh(["coq_makefile", "-f", "_CoqProject", "-o", "Makefile"], cwd=COQ)
                 if rc != 0:
                     return False, out
@@ -294,6 +294,27 @@ class Ctx:
             len(self.violations), len(self.known_hits), wall))
         sys.stdout.flush()
         return 1 if self.violations else 0
+
+
+def write_coq_project():
+    """_CoqProject = fixed header + every .v under Base/ Model/ Gen/ Proofs/ Props/ (sorted).  Returns True if it changed."""
+    hdr = ["-Q . RV", "-arg -w -arg -notation-overridden,-deprecated-hint-without-locality,-deprecated-instance-without-locality,-deprecated-hint-rewrite-without-locality"]
+    files = []
+    for d in ("Base", "Model", "Gen", "Proofs", "Props"):
+        dd = os.path.join(COQ, d)
+        if os.path.isdir(dd):
+            for root, _, fs in os.walk(dd):
+                for f in sorted(fs):
+                    if f.endswith(".v") and not f.startswith("."):
+                        files.append(os.path.relpath(os.path.join(root, f), COQ))
+    text = "\n".join(hdr + sorted(files)) + "\n"
+    path = os.path.join(COQ, "_CoqProject")
+    old = open(path).read() if os.path.exists(path) else None
+    if old != text:
+        with open(path, "w") as f:
+            f.write(text)
+        return True
+    return False
 
 
 def load_known():
